@@ -262,12 +262,12 @@ def run_check(modname, tier, seed, workers=None, out=sys.stdout):
           file=out, flush=True)
 
     jobs = []
+    if hasattr(mod, "stat_jobs"):  # the long jobs first (better load balance)
+        for j in mod.stat_jobs(tier, seed):
+            jobs.append(("stat", (modname, j, plan.get("job_timeout", 600))))
     for r in range(plan.get("rounds", 0)):
         jobs.append(("hyp", (modname, tier, _derive(seed, "hyp", r), plan["examples_per_round"],
                              plan.get("job_timeout", 600))))
-    if hasattr(mod, "stat_jobs"):
-        for j in mod.stat_jobs(tier, seed):
-            jobs.append(("stat", (modname, j, plan.get("job_timeout", 600))))
     # big jobs first
     wall_cap = plan.get("wall_cap", 1e9)
     total = Agg()
